@@ -61,6 +61,12 @@ func init() {
 			}
 			return mi(w.tc.IntI(asInt64(args[0])))
 		},
+		"verifMIFromUint64": func(w *world, _ *frame, _ *ssa.Function, args []value) value {
+			if s, ok := args[0].(symv); ok {
+				return mi(w.tc.BV2Int(s.t, false))
+			}
+			return mi(w.tc.Int(new(big.Int).SetUint64(uint64(asInt64(args[0])))))
+		},
 		"verifMIFromString": func(w *world, _ *frame, _ *ssa.Function, args []value) value {
 			r, ok := new(big.Int).SetString(concString(args[0], "integer literal"), 10)
 			if !ok {
